@@ -71,8 +71,24 @@ func supplies(h *sim.Hist) map[types.ZenonTokenStandard]*big.Int {
 
 func TestC01(t *testing.T) {
 	pbt.Check(t, "C01", func(c *pbt.C) {
-		h := sim.NewHist(c, genSpec(c), genWorldOpts(c))
+		spec, opts := genSpec(c), genWorldOpts(c)
+		bridgeWorld := c.Weighted("c01.bridgeWorld", 3, 1) == 1
+		if bridgeWorld {
+			spec.ActiveSporks = 2
+			opts.Bridge = true
+			for len(spec.Users) < 5 {
+				spec.Users = append(spec.Users, sim.UserSpec{Znn: 9000, Qsr: 90000})
+			}
+		}
+		h := sim.NewHist(c, spec, opts)
 		h.Intents = sim.DefaultIntents()
+		if bridgeWorld {
+			c.Class("bridge-world")
+			_ = sim.BridgeScript(h, c.Int("c01.wraps", 0, 4), c.Int("c01.unwraps", 0, 3))
+			_ = sim.LiquidityScript(h)
+			h.Intents = append(h.Intents, sim.BridgeIntents()...)
+			h.Intents = append(h.Intents, sim.BridgeIntents()...)
+		}
 		if msg, _, _, err := sim.CheckSupply(h.A); err != nil {
 			panic(err)
 		} else if msg != "" {
